@@ -281,6 +281,9 @@ func ruleSizeAccounting(c *Ctx) {
 	// Ghosts: S = aofsz at entry + bytes read; P = the file offset of s.aof (starts at S: the caller
 	// positioned the file where aofsz says); F = the size of the file (unknown until end-of-file is seen).
 	cl.Init = func(a *Aff, st *affSpace) *affSpace {
+		// the loader is entered with aofsz = 0 = file offset (R6.size-tracks-file/loader-entry discharges this
+		// at every call site), so a loader that zeroes the field itself first is the same function
+		st = st.assume(a.VarForm(a.fidx[v.aofsz]))
 		st = st.assume(a.VarForm(a.Ghost("S")).add(a.VarForm(a.fidx[v.aofsz]), -1))
 		// K = entry offset + bytes consumed (by the parser, or skipped one by one): starts at the entry offset
 		st = st.assume(a.VarForm(a.Ghost("K")).add(a.VarForm(a.Ghost("S")), -1))
